@@ -11,18 +11,13 @@ import (
 )
 
 // Verification-only accessors for C13 (grafted by the /verif overlay; never part of the repository).
+// All three go through reflection (field "s" by name, held by value or by pointer), so that they keep
+// compiling when the representation of the transcript, the builder or the reader changes.
 
-// VerifStrobe exposes the transcript's STROBE object.
-func VerifStrobe(t *Transcript) *strobe.Strobe { return &t.s }
-
-// VerifBuilderStrobe exposes the RNG builder's STROBE object (nil after Finalize).
-func VerifBuilderStrobe(rb *TranscriptRngBuilder) *strobe.Strobe { return rb.s }
-
-// VerifRngStrobe exposes the STROBE object of a reader returned by Finalize (nil if r is something else).
-// It goes through reflection so that it keeps compiling whether the reader holds its state by pointer or by
-// value and whether Finalize returns a pointer or a value (for a value, a snapshot copy is returned).
-func VerifRngStrobe(r io.Reader) *strobe.Strobe {
-	v := reflect.ValueOf(r)
+// verifStrobeOf finds the STROBE object inside x (a pointer to / an interface holding a struct with a field "s").
+// For a struct that is not addressable a snapshot copy is returned.
+func verifStrobeOf(x interface{}) *strobe.Strobe {
+	v := reflect.ValueOf(x)
 	for v.IsValid() && (v.Kind() == reflect.Ptr || v.Kind() == reflect.Interface) {
 		if v.IsNil() {
 			return nil
@@ -49,4 +44,21 @@ func VerifRngStrobe(r io.Reader) *strobe.Strobe {
 		return *(**strobe.Strobe)(unsafe.Pointer(f.UnsafeAddr()))
 	}
 	return nil
+}
+
+// VerifStrobe exposes the transcript's STROBE object.
+func VerifStrobe(t *Transcript) *strobe.Strobe { return verifStrobeOf(t) }
+
+// VerifBuilderStrobe exposes the RNG builder's STROBE object (nil after Finalize).
+func VerifBuilderStrobe(rb *TranscriptRngBuilder) *strobe.Strobe { return verifStrobeOf(rb) }
+
+// VerifRngStrobe exposes the STROBE object of a reader returned by Finalize (nil if r is something else).
+func VerifRngStrobe(r io.Reader) *strobe.Strobe { return verifStrobeOf(r) }
+
+// VerifMissing reports whether the transcript's STROBE object can still be located ("" = yes).
+func VerifMissing() string {
+	if verifStrobeOf(&Transcript{}) == nil {
+		return "Transcript.s"
+	}
+	return ""
 }
